@@ -3,7 +3,7 @@ from __future__ import annotations
 
 from worlds.engine_common import simulate
 from worlds.policies import ref_wait_exact, ref_wait_lower_bound
-from worlds.retry_world import attempts_of, gen_retry_spec, wait_kind
+from worlds.retry_world import attempts_of, deliveries, gen_retry_spec, wait_kind
 
 ID = "C06"
 LEVEL = "exploration"
@@ -17,48 +17,64 @@ RULE_TEXT = ("One always/partly failing step under wait_fixed, wait_chain (2-4 d
              "Non-trivial: >=2 retries observed; distinct = (strategy kind, number of retries, parameters).")
 COMPONENTS = {"real": ["workflows.* engine, retry_policy"], "stub": ["llama_index_instrumentation"], "sim": ["loop, clocks"]}
 ASSUMPTIONS = ["tenacity indexing as quoted in the property statement: first retry = first chain strategy, initial/multiplier delay"]
-EXPECTED_PROBES = ["retry>=2", "chain", "exp", "inc", "random-family"]
+EXPECTED_PROBES = ["contended-arm", "retry-waited-for-slot", "chain-with-attempt-dependent-tail", "retry>=2", "chain", "exp", "inc", "random-family"]
 LEVEL_TEXT = ("Seeded exploration of wait strategies x failure counts in virtual time, so 'earlier' has no scheduling slack; "
               "lower bound checked for every retry, exact documented delay for the first retry of deterministic strategies.")
 LEVEL_NOTE = "Trusted: simulator clock; reference delay table in worlds/policies.py."
 
-CFG = {"driver": "result", "grid": [0, 1, 2], "p_handler": 0, "rich_waits": True, "stop_attempts_only": True}
+CFG = {"driver": "result", "grid": [0, 1, 2], "p_handler": 0, "rich_waits": True, "stop_attempts_only": True, "p_contend": 40}
 
 
 def gen(tape, cfg):
     spec = gen_retry_spec(tape, cfg)
-    spec["steps"][0]["retry"]["retry"] = None
+    next(st for st in spec["steps"] if st["name"] == "s0")["retry"]["retry"] = None
     return spec
 
 
 def check(world, spec, outcome) -> None:
-    pol = spec["steps"][0]["retry"]
+    pol = next(st for st in spec["steps"] if st["name"] == "s0")["retry"]
     w = pol["wait"]
     wk = wait_kind(w)
-    atts = attempts_of(world.trace.recs)
+    contended = bool(spec.get("contended"))
+    if contended:
+        world.probe("contended-arm")
     nretry = 0
-    for i in range(1, len(atts)):
-        prev, cur = atts[i - 1], atts[i]
-        if not prev["exit"].startswith("raised:"):
-            continue
-        nretry += 1
-        k = i
-        gap = cur["t0"] - prev["t1"]
-        lb = ref_wait_lower_bound(w, k)
-        nxt = ref_wait_exact(w, k + 1)
-        index = "k+1" if (nxt is not None and abs(gap - nxt) <= 1e-9) else "other"
-        if gap < lb - 1e-9:
-            world.violate("C06.too-early", f"retry {k} started {gap}s after failure {k}; {w} documents >= {lb}s", cur["seq"],
-                          strategy=wk, index=index)
-        exact = ref_wait_exact(w, k)
-        if k == 1 and exact is not None and abs(gap - exact) > 1e-9 and gap >= lb - 1e-9:
-            world.violate("C06.first-retry-delay", f"first retry waited {gap}s; {w} documents {exact}s for the first retry "
-                          f"(first chain strategy / initial delay)", cur["seq"], strategy=wk, index=index)
+    # instant at which the engine re-delivered the event for its k-th retry (the delayed TickAddEvent): the scheduled delay,
+    # independent of how long the retry then had to wait for a free worker slot
+    redelivered = {}
+    for _, t, kind, f in world.trace.recs:
+        if kind == "tick" and f.get("tick") == "add_event" and f.get("attempts"):
+            redelivered.setdefault((f.get("uid"), f["attempts"]), t)
+    for uid, atts in deliveries(world.trace.recs).items():
+        for i in range(1, len(atts)):
+            prev, cur = atts[i - 1], atts[i]
+            if not prev["exit"].startswith("raised:"):
+                continue
+            nretry += 1
+            k = i
+            start_gap = cur["t0"] - prev["t1"]
+            rt = redelivered.get((uid, k))
+            gap = (rt - prev["t1"]) if (rt is not None and prev["t1"] - 1e-9 <= rt <= cur["t0"] + 1e-9) else start_gap
+            lb = ref_wait_lower_bound(w, k)
+            nxt = ref_wait_exact(w, k + 1)
+            index = "k+1" if (nxt is not None and abs(gap - nxt) <= 1e-9) else "other"
+            if gap < lb - 1e-9:
+                world.violate("C06.too-early", f"uid {uid}: retry {k} started {gap}s after failure {k}; {w} documents >= {lb}s", cur["seq"],
+                              strategy=wk, index=index)
+            exact = ref_wait_exact(w, k)
+            # exactness is judged on the re-delivery instant: with contention a due retry may additionally wait for a worker slot
+            if k == 1 and (not contended or rt is not None) and exact is not None and abs(gap - exact) > 1e-9 and gap >= lb - 1e-9:
+                world.violate("C06.first-retry-delay", f"first retry waited {gap}s; {w} documents {exact}s for the first retry "
+                              f"(first chain strategy / initial delay)", cur["seq"], strategy=wk, index=index)
+            if contended and start_gap > gap + 1e-9:
+                world.probe("retry-waited-for-slot")
     if nretry >= 2:
         world.probe("retry>=2")
     for name in ("chain", "exp", "inc"):
         if name in wk.replace("expjitter", "").replace("randexp", ""):
             world.probe(name)
+    if w[0] == "chain" and any(x[0] != "fixed" for x in w[1]):
+        world.probe("chain-with-attempt-dependent-tail")
     if any(x in wk for x in ("random", "expjitter", "randexp")):
         world.probe("random-family")
     world._nt = nretry >= 2
